@@ -215,7 +215,7 @@ Section Adjacent.
     - (* pos *)
       destruct Hw as (_ & We). apply clean_cons_leader; [reflexivity|]. now apply (IHs _ We).
     - (* juxt *)
-      destruct Hw as (Ca & Wa & _ & Wr). intros x y H Q. apply adj_app in H. destruct H as [H|[H|[(a' & E) _]]].
+      destruct Hw as (Ca & Wa & _ & Wr & _). intros x y H Q. apply adj_app in H. destruct H as [H|[H|[(a' & E) _]]].
       + now apply (IHs1 0 Wa x y).
       + now apply (IHs2 _ Wr x y).
       + rewrite (capable_last s1 x a' Ca Wa E) in Q. discriminate.
@@ -333,7 +333,7 @@ Section Adjacent.
     - destruct Hw as (_ & We). apply clean2_cons_leader; [reflexivity|discriminate|]. now apply (IHs _ We).
     - destruct Hw as (_ & We). apply clean2_cons_leader; [reflexivity|discriminate|]. now apply (IHs _ We).
     - (* juxt: the right factor starts with a trigger, which is never an atom *)
-      destruct Hw as (Ca & Wa & St & Wr). intros x y H Q. apply adj_app in H. destruct H as [H|[H|[_ (b' & E)]]].
+      destruct Hw as (Ca & Wa & St & Wr & _). intros x y H Q. apply adj_app in H. destruct H as [H|[H|[_ (b' & E)]]].
       + now apply (IHs1 0 Wa x y).
       + now apply (IHs2 _ Wr x y).
       + pose proof (starts_first s2 y b' E St) as Ty. rewrite (atom_not_trigger y Q) in Ty. discriminate.
@@ -365,6 +365,93 @@ Section Adjacent.
     intros A Q Tr. destruct (parse T ph ts) as [n| | |] eqn:E; [|reflexivity| |].
     - exfalso. apply parser_sound in E. destruct E as (s & Ws & Ep & _). subst ts.
       pose proof (no_atom_after_ender s 0 Ws x y A Tr). congruence.
+    - exfalso. eapply parse_not_panic; eauto.
+    - exfalso. eapply parse_never_fuel; eauto.
+  Qed.
+  (** ** a literal is never directly followed by a literal (tables whose Num arm rejects it) *)
+  Definition isnum (t : tok) : bool := match t with TNum _ => true | _ => false end.
+  Definition clean3 (l : list tok) : Prop := forall x y, adj x y l -> isnum x = true -> isnum y = true -> False.
+
+  Lemma clean3_single (t : tok) : clean3 [t].
+  Proof. intros x y H _ _. now apply (adj_single x y t). Qed.
+  Lemma clean3_cons (t : tok) (l : list tok) : isnum t = false -> clean3 l -> clean3 (t :: l).
+  Proof.
+    intros N C x y H Qx Qy. apply adj_cons in H. destruct H as [H|[E _]].
+    - now apply (C x y).
+    - subst x. congruence.
+  Qed.
+  Lemma clean3_app_last (a : list tok) (t : tok) : clean3 a -> isnum t = false -> clean3 (a ++ [t]).
+  Proof.
+    intros Ca N x y H Qx Qy. apply adj_app in H. destruct H as [H|[H|[_ (b' & E)]]].
+    - now apply (Ca x y).
+    - now apply (adj_single x y t).
+    - inversion E; subst. congruence.
+  Qed.
+  Lemma clean3_app_mid (a b : list tok) (t : tok) : clean3 a -> clean3 b -> isnum t = false -> clean3 (a ++ t :: b).
+  Proof.
+    intros Ca Cb N x y H Qx Qy. apply adj_app in H. destruct H as [H|[H|[_ (b' & E)]]].
+    - now apply (Ca x y).
+    - now apply (clean3_cons t b N Cb x y).
+    - inversion E; subst. congruence.
+  Qed.
+  Lemma clean3_commas (ls : list (list tok)) : Forall clean3 ls -> clean3 (commas ls).
+  Proof.
+    induction 1 as [|l ls Hl Hls IH]; simpl.
+    - intros x y H. exfalso. now apply (adj_nil x y).
+    - destruct ls as [|l2 ls']; [exact Hl|]. apply clean3_app_mid; auto.
+  Qed.
+
+  Hypothesis NN : pt_numnum T = false.
+
+  Theorem no_num_after_num : forall (s : sx) p, W p s -> clean3 (print s).
+  Proof.
+    induction s using sx_ind2; intros p Hw; simpl in Hw |- *.
+    - apply clean3_single.
+    - apply clean3_single.
+    - apply clean3_single.
+    - destruct Hw as (_ & _ & _ & We & _). apply clean3_cons; [reflexivity|]. apply clean3_app_last; [now apply (IHs 0)|reflexivity].
+    - destruct Hw as (_ & Wa & _). apply clean3_cons; [reflexivity|]. apply clean3_cons; [reflexivity|].
+      apply clean3_app_last; [now apply (IHs 0)|reflexivity].
+    - destruct Hw as (_ & Wa & _ & Wb & _). apply clean3_cons; [reflexivity|]. apply clean3_cons; [reflexivity|].
+      apply clean3_app_mid; [now apply (IHs1 0)| |reflexivity]. apply clean3_app_last; [now apply (IHs2 0)|reflexivity].
+    - destruct Hw as (_ & _ & Hall). apply clean3_cons; [reflexivity|]. apply clean3_cons; [reflexivity|].
+      apply clean3_app_last; [|reflexivity]. apply clean3_commas.
+      revert Hall. induction H as [|x xs Hx Hxs IH]; intros Hall; simpl; constructor.
+      + destruct Hall as (Wx & _ & _). now apply (Hx 0).
+      + apply IH. now destruct Hall as (_ & _ & R).
+    - destruct Hw as (_ & We). apply clean3_cons; [reflexivity|]. now apply (IHs _ We).
+    - destruct Hw as (_ & We). apply clean3_cons; [reflexivity|]. now apply (IHs _ We).
+    - (* juxt: a literal on the left is never followed by a literal *)
+      destruct Hw as (Ca & Wa & St & Wr & Hj). intros x y H Qx Qy. apply adj_app in H. destruct H as [H|[H|[(a' & Ea) (b' & Eb)]]].
+      + now apply (IHs1 0 Wa x y).
+      + now apply (IHs2 _ Wr x y).
+      + destruct s1; try discriminate; simpl in Ea.
+        * rewrite Eb in Hj. simpl in Hj. rewrite NN in Hj. destruct y; simpl in *; discriminate.
+        * change (TK k :: print s1 ++ [TK (closer T k)]) with ((TK k :: print s1) ++ [TK (closer T k)]) in Ea.
+          apply app_inj_tail in Ea. destruct Ea as [_ <-]. discriminate.
+        * change (TK (KFunc f) :: TK KLeftParen :: print s1 ++ [TK KRightParen]) with ((TK (KFunc f) :: TK KLeftParen :: print s1) ++ [TK KRightParen]) in Ea.
+          apply app_inj_tail in Ea. destruct Ea as [_ <-]. discriminate.
+        * replace (TK (KFunc f) :: TK KLeftParen :: print s1_1 ++ TK KComma :: print s1_2 ++ [TK KRightParen])
+            with ((TK (KFunc f) :: TK KLeftParen :: print s1_1 ++ TK KComma :: print s1_2) ++ [TK KRightParen]) in Ea
+            by (simpl; rewrite <- app_assoc; reflexivity).
+          apply app_inj_tail in Ea. destruct Ea as [_ <-]. discriminate.
+        * replace (TK (KFunc f) :: TK KLeftParen :: commas (map print args) ++ [TK KRightParen])
+            with ((TK (KFunc f) :: TK KLeftParen :: commas (map print args)) ++ [TK KRightParen]) in Ea by reflexivity.
+          apply app_inj_tail in Ea. destruct Ea as [_ <-]. discriminate.
+    - destruct Hw as (_ & _ & _ & _ & Wl & Wr). apply clean3_app_mid; [now apply (IHs1 _ Wl)|now apply (IHs2 _ Wr)|reflexivity].
+    - destruct Hw as (_ & _ & _ & _ & _ & Wl). apply clean3_app_last; [now apply (IHs _ Wl)|reflexivity].
+    - destruct Hw as (_ & _ & _ & _ & _ & Wl & _ & Wr). apply clean3_app_mid; [now apply (IHs1 _ Wl)|now apply (IHs2 _ Wr)|reflexivity].
+    - destruct Hw as (_ & _ & _ & _ & _ & _ & Wl). apply clean3_app_last; [now apply (IHs _ Wl)|reflexivity].
+    - destruct Hw as (_ & _ & _ & _ & Wl). apply clean3_app_last; [now apply (IHs _ Wl)|reflexivity].
+  Qed.
+
+  (** every input in which a literal token is directly followed by a literal token (`.5.5`, `1.5.5`, `2ii`) is rejected *)
+  Theorem num_then_num_rejected (ts : list tok) a b :
+    adj (TNum a) (TNum b) ts -> parse T ph ts = Err.
+  Proof.
+    intros A. destruct (parse T ph ts) as [n| | |] eqn:E; [|reflexivity| |].
+    - exfalso. apply parser_sound in E. destruct E as (s & Ws & Ep & _). subst ts.
+      exact (no_num_after_num s 0 Ws _ _ A eq_refl eq_refl).
     - exfalso. eapply parse_not_panic; eauto.
     - exfalso. eapply parse_never_fuel; eauto.
   Qed.
